@@ -586,6 +586,10 @@ def directed():
                   call("len", ["comp", "list", call("clamp", call("abs", N("x"))), None, [[["x"], False, N("xs"), []]]])],
           [[">", K(100)]]],
          {"xs": [-20, 4], "x": -3}, {"placement": {"x": "param", "xs": "param"}, "force_env": ["x"]}),
+        # an assignment expression that binds a function: left out of the message like any other name of a function
+        ("det-named-function", ["bool", "and", [["un", "not", ["cmp", ["named", "tmp", N("cb")], [["is", K(None)]]]],
+                                                ["cmp", N("x"), [[">", K(5)]]]]],
+         {"cb": {"fn": "inv"}, "x": 1}, {"placement": {"cb": "param", "x": "param"}}),
         # a target name bound by two clauses (the throw-away name of tuple unpacking), several other loop variables
         ("det-repeated-target-names",
          call("all", ["comp", "gen", ["cmp", N("v"), [[">", K(0)]]], None,
